@@ -253,7 +253,8 @@ def run(mod, tier, seed, workers=None, replay_path=None):
         'distinct_outcomes': len(total.outcomes),
         'rule': mod.RULE,
         'exhaustive': (not truncated_by_budget) and herr == 0 and not replay_path
-                      and int(c.get('truncated_executions', 0)) == 0 and bool(getattr(mod, 'EXHAUSTIVE', True)),
+                      and int(c.get('truncated_executions', 0)) == 0 and int(c.get('capped_instances', 0)) == 0
+                      and bool(getattr(mod, 'EXHAUSTIVE', True)),
         'bounds': mod.bounds(tier),
         'truncated_by_time_budget': truncated_by_budget,
         'counters': {k: (int(v) if float(v).is_integer() else v) for k, v in sorted(c.items())},
@@ -265,7 +266,7 @@ def run(mod, tier, seed, workers=None, replay_path=None):
         'coverage': cov, 'assumptions': list(mod.ASSUMPTIONS), 'wall_s': round(wall, 2),
         'violations': n_new,
     }
-    if not replay_path:
+    if not replay_path and not os.environ.get('VERIF_NO_EVIDENCE'):
         os.makedirs(os.path.join(VERIF, 'evidence'), exist_ok=True)
         with open(os.path.join(VERIF, 'evidence', f'{pid}.json'), 'w') as f:
             json.dump(ev, f, indent=1, sort_keys=True)
